@@ -36,6 +36,23 @@ struct S4 {
     t: u16,
 }
 
+// generic derived structs: every instantiation is its own type with its own signature
+#[derive(DMarshal, DSignature, Debug, PartialEq, Clone)]
+struct G1<T: Marshal + Signature> {
+    tag: u8,
+    value: T,
+}
+#[derive(DMarshal, DSignature, Debug, PartialEq, Clone)]
+struct G2<A: Marshal + Signature, B: Marshal + Signature> {
+    a: A,
+    b: Vec<B>,
+}
+#[derive(DMarshal, DUnmarshal, DSignature, Debug, PartialEq, Clone)]
+struct L1<'a> {
+    s: &'a str,
+    n: u64,
+}
+
 // ---- derived enums -------------------------------------------------------------------------------
 #[derive(DMarshal, DUnmarshal, DSignature, Debug, PartialEq)]
 enum E1 {
@@ -66,6 +83,62 @@ fn sig_of<M: Signature>() -> String {
     M::signature().to_str(&mut s);
     s
 }
+/// the signature the way the body builder asks for it (`Signature::sig_str` into a buffer that already holds something)
+fn sig_str_of<M: Signature>() -> String {
+    let mut b = rustbus::wire::marshal::traits::SignatureBuffer::new();
+    b.push_static("yy");
+    M::sig_str(&mut b);
+    b.as_str()[2..].to_string()
+}
+/// all the ways of asking a type for its signature agree
+fn sig_ways<M: Signature + Marshal>(out: &mut Out, name: &str, expect: &str, sample: &M) {
+    let a = sig_of::<M>();
+    let b = guard(|| sig_str_of::<M>()).unwrap_or("panic".into());
+    let c = guard(|| M::has_sig(expect)).unwrap_or(false);
+    // through the body builder
+    let mut m1 = rustbus::message_builder::MessageBuilder::new().signal("a.b", "M", "/o").build();
+    let pushed = m1.body.push_param(sample).is_ok();
+    let d = m1.get_sig().to_string();
+    let mut m2 = rustbus::message_builder::MessageBuilder::new().signal("a.b", "M", "/o").build();
+    let pushed2 = m2.body.push_variant(sample).is_ok();
+    let inner = variant_inner_sig(m2.get_buf());
+    out.hit("sig_ways");
+    if a != expect || b != expect || !c || !pushed || d != expect || !pushed2 || inner.as_deref() != Some(expect) {
+        out.violation(
+            &format!("c16.sigways {} {}", name, expect),
+            &format!("signature() {:?}, sig_str {:?}, has_sig(own) {}, body signature after push_param {:?} (ok={}), signature inside push_variant {:?} (ok={}); expected {:?} everywhere", a, b, c, d, pushed, inner, pushed2, expect),
+        );
+    }
+}
+/// the signature string at the start of a body that holds one variant
+fn variant_inner_sig(buf: &[u8]) -> Option<String> {
+    let n = *buf.first()? as usize;
+    std::str::from_utf8(buf.get(1..1 + n)?).ok().map(|s| s.to_string())
+}
+
+/// a derived struct that only marshals (generic ones): bytes and signature equal to the tuple's, decoded as the tuple
+fn equiv_m<D, T>(out: &mut Out, name: &str, d: &D, t: &T)
+where
+    D: Marshal + Signature,
+    T: Cat + std::fmt::Debug,
+{
+    let ty = T::ty();
+    let val = t.to_val();
+    sig_ways::<D>(out, name, &ty.sig(), d);
+    for bo in ORDERS {
+        for phase in [0usize, 1, 4, 7] {
+            let a = marshal_at(d, bo, phase);
+            let b = marshal_at(t, bo, phase);
+            let req = format!("w.enc {} {} {} {}", bo_name(bo), phase, ty.sig(), val.show());
+            if a != b || a.is_none() {
+                out.violation(&req, &format!("{}: the APIs produce different bytes: derived {:?} tuple {:?}", name, a.as_ref().map(|x| hex(x)), b.as_ref().map(|x| hex(x))));
+            }
+            out.hit("equiv_generic_struct_case");
+            out.case(&req, &a.as_ref().map(|x| hex(x)).unwrap_or("refuse".into()), true);
+        }
+    }
+}
+
 fn param_bytes(ty: &Ty, val: &Val, bo: ByteOrder, phase: usize) -> Option<Vec<u8>> {
     let p = to_param(ty, val, &[])?;
     let mut buf = vec![0u8; phase];
@@ -129,6 +202,32 @@ fn run_structs(out: &mut Out, rng: &mut Prng, n: usize) {
         equiv(out, "S2", &S2 { a: t2.0.clone(), b: t2.1.clone(), c: t2.2 }, &t2, (<(String, Vec<u64>, (u8, u32))>::ty(), t2.to_val()), |d| (d.a.clone(), d.b.clone(), d.c));
         let t3 = <(u32,)>::gen(rng, 2);
         equiv(out, "S3", &S3 { x: t3.0 }, &t3, (<(u32,)>::ty(), t3.to_val()), |d| (d.x,));
+        // generic structs, several instantiations in one process, in varying order
+        let order = rng.below(3);
+        for k in 0..3 {
+            match (k + order) % 3 {
+                0 => {
+                    let t = <(u8, u32)>::gen(rng, 2);
+                    equiv_m(out, "G1<u32>", &G1 { tag: t.0, value: t.1 }, &t);
+                }
+                1 => {
+                    let t = <(u8, String)>::gen(rng, 2);
+                    equiv_m(out, "G1<String>", &G1 { tag: t.0, value: t.1.clone() }, &t);
+                }
+                _ => {
+                    let t = <(u8, Vec<u64>)>::gen(rng, 2);
+                    equiv_m(out, "G1<Vec<u64>>", &G1 { tag: t.0, value: t.1.clone() }, &t);
+                }
+            }
+        }
+        let g = <(u64, Vec<u8>)>::gen(rng, 2);
+        equiv_m(out, "G2<u64,u8>", &G2 { a: g.0, b: g.1.clone() }, &g);
+        let g = <(String, Vec<(u8, u32)>)>::gen(rng, 2);
+        equiv_m(out, "G2<String,(u8,u32)>", &G2 { a: g.0.clone(), b: g.1.clone() }, &g);
+        let g = <(u8, Vec<u64>)>::gen(rng, 2);
+        equiv_m(out, "G2<u8,u64>", &G2 { a: g.0, b: g.1.clone() }, &g);
+        let l = <(String, u64)>::gen(rng, 2);
+        equiv_m(out, "L1", &L1 { s: &l.0, n: l.1 }, &l);
         let t4 = <((u8, u64), HashMap<String, u32>, u16)>::gen(rng, 2);
         let d4 = S4 { s: S1 { a: t4.0 .0, b: t4.0 .1 }, m: t4.1.clone(), t: t4.2 };
         // the map's iteration order is shared between d4.m and t4.1 only if it is the same map instance:
@@ -373,6 +472,14 @@ fn run_has_sig(out: &mut Out, rng: &mut Prng, per_type: usize) {
     for (ty_sig, f) in table {
         one(out, ty_sig, &|s| f(s), false, rng);
     }
+    // every way of asking a catalogue type for its signature
+    macro_rules! ways {
+        ($t:ty) => {{
+            let v = <$t as Cat>::gen(rng, 1);
+            sig_ways::<$t>(out, stringify!($t), &<$t as Cat>::ty().sig(), &v);
+        }};
+    }
+    vcore::for_each_catalogue_type!(ways);
     // derived structs against every signature of the pool
     one(out, "(yt)".into(), &|s| S1::has_sig(s), true, rng);
     one(out, "(sat(yu))".into(), &|s| S2::has_sig(s), true, rng);
@@ -390,7 +497,7 @@ pub fn run(cfg: &Cfg) {
     run_has_sig(&mut out, &mut rng, if cfg.thorough { 60 } else { 8 });
     let _ = (ObjectPath::new("/").is_ok(), SignatureWrapper::new("").is_ok());
     out.finish(
-        "4 derived structs vs the tuple of their fields vs the Param tree (bytes, signature, cross decoding) x generated values x {LE,BE} x 8 offsets; 3 cases of a derived enum, 4 of a dbus_variant_sig! enum, 3 of a dbus_variant_var! enum vs the typed variant wrapper vs the Param variant; variants of every catalogue type outside the enums' cases placed between other values of a body (error without moving / Catchall with the following values intact); has_sig of every catalogue type and of the derived structs against valid signatures (shorter, longer, different structs included); distinct by request",
+        "generic derived structs (G1<T> at three T, G2<A,B> at three (A,B), a lifetime-generic one; several instantiations per process in varying order) vs the tuple of their fields: bytes and the signature asked five ways (signature(), sig_str into a non-empty buffer, has_sig, body signature after push_param, signature inside push_variant), the same five ways for every catalogue type; 4 derived structs vs the tuple of their fields vs the Param tree (bytes, signature, cross decoding) x generated values x {LE,BE} x 8 offsets; 3 cases of a derived enum, 4 of a dbus_variant_sig! enum, 3 of a dbus_variant_var! enum vs the typed variant wrapper vs the Param variant; variants of every catalogue type outside the enums' cases placed between other values of a body (error without moving / Catchall with the following values intact); has_sig of every catalogue type and of the derived structs against valid signatures (shorter, longer, different structs included); distinct by request",
         false,
     );
 }
